@@ -394,6 +394,19 @@ class ChooseOp(IRDLOperation):
         return data_operand_types
 
     @staticmethod
+    def _clone_onto_block_args(operation: Operation, block: Block) -> Operation:
+        """
+        Clone an operation and wire its i-th operand to the i-th block argument.
+        (A value mapper keyed by operand collapses repeated operands, e.g. muli %x, %x,
+        onto a single block argument, so the choice would ignore one of its data operands.)
+        """
+        assert len(operation.operands) == len(block.args)
+        result = operation.clone()
+        for i, arg in enumerate(block.args):
+            result.operands[i] = arg
+        return result
+
+    @staticmethod
     def from_operations(
         name: str,
         data_operands: Sequence[Operation | SSAValue],
@@ -408,22 +421,16 @@ class ChooseOp(IRDLOperation):
         data_operand_types = ChooseOp._check_operand_types(data_operands, operations)
         # Default operation
         default_block = Block(arg_types=data_operand_types)
-        value_mapper = {
-            SSAValue.get(arg): SSAValue.get(val)
-            for arg, val in zip(operations[0].operands, default_block.args, strict=True)
-        }
-        default_block.add_ops([result := operations[0].clone(value_mapper), YieldOp(result)])
+        result = ChooseOp._clone_onto_block_args(operations[0], default_block)
+        default_block.add_ops([result, YieldOp(result)])
         default_region = Region(default_block)
         # Non-default
         case_regions: list[Region] = []
         if len(operations) > 1:
             for operation in operations[1:]:
                 case_block = Block(arg_types=data_operand_types)
-                value_mapper = {
-                    SSAValue.get(arg): SSAValue.get(val)
-                    for arg, val in zip(operation.operands, case_block.args, strict=True)
-                }
-                case_block.add_ops([result := operation.clone(value_mapper), YieldOp(result)])
+                result = ChooseOp._clone_onto_block_args(operation, case_block)
+                case_block.add_ops([result, YieldOp(result)])
                 case_regions.append(Region(case_block))
         return ChooseOp(
             name=name,
